@@ -196,6 +196,8 @@ class Check(DiffCheck):
     id = 'C04'
     # lockset engine (lib/lockset.py): sleep / timeout / interrupt / standby blocks happen under thread.lock (+ waitq.lock / standbyq.lock)
     lockset_rules = {11, 12, 13, 14, 15, 17}
+    # E4S (lib/e4s.py): cross-vCPU sleep / interrupt / shutdown scenarios with the C04 contract oracle
+    e4s_props = {'C04'}
     needs_libphoton = True
     coq_dirs = ['Base', 'C04', 'Sched']
     coq_targets = ['C04/C04_HeapProofs.vo', 'Sched/Invariant.vo', 'Sched/Effects.vo', 'Sched/Example.vo', 'C04/C04_Inv.vo', 'C04/C04_Good.vo',
